@@ -1112,6 +1112,8 @@ pub(crate) fn tree_decompose_and_plan(
             let stages = JoinStages {
                 instrs: Arc::new(instrs),
             };
+            #[cfg(egglog_verif)]
+            crate::verif::count(crate::verif::Path::plan_single);
 
             Plan::SinglePlan(SinglePlan {
                 atoms: Arc::new(ctx.atoms),
@@ -1170,6 +1172,14 @@ pub(crate) fn tree_decompose_and_plan(
         .map(|(stages, mat_spec)| (loop_lifting(stages), mat_spec))
         .collect::<Vec<_>>();
     let result_block = loop_lifting(result_block);
+    #[cfg(egglog_verif)]
+    {
+        crate::verif::count(crate::verif::Path::plan_decomposed);
+        crate::verif::add(
+            crate::verif::Path::plan_decomposed_bags,
+            blocks.len() as u64,
+        );
+    }
 
     Plan::DecomposedPlan(DecomposedPlan {
         atoms: Arc::new(ctx.atoms),
